@@ -812,6 +812,32 @@ impl WorldA {
                     return;
                 }
                 let keep = op.d % 2 == 1;
+                if op.c % 5 >= 3 {
+                    // sparse pass that leaves the rest in flight: newest first, every 4th (order 3) or every 3rd (order 4) packet;
+                    // a later pass delivers packets that fall between ranges the receiver already recorded
+                    let stride = if op.c % 5 == 3 { 4 } else { 3 };
+                    let pool = std::mem::take(&mut self.conns[i].pool[d]);
+                    let n = pool.len();
+                    let mut now: Vec<Dgram> = Vec::new();
+                    let mut later: Vec<Dgram> = Vec::new();
+                    for (k, g) in pool.into_iter().enumerate() {
+                        if (n - 1 - k) % stride == 0 {
+                            now.push(g);
+                        } else {
+                            later.push(g);
+                        }
+                    }
+                    now.reverse();
+                    self.conns[i].pool[d] = later;
+                    if now.len() > 1 {
+                        obs.count("fault.reverse_strided_burst");
+                    }
+                    for g in now {
+                        obs.count("op.deliver");
+                        self.deliver_bytes(i, d, &g.bytes, true, obs);
+                    }
+                    return;
+                }
                 let mut batch: Vec<Dgram> = if keep {
                     self.conns[i].pool[d].iter().map(|g| Dgram { bytes: g.bytes.clone(), deliveries: 0, n: g.n }).collect()
                 } else {
@@ -820,7 +846,7 @@ impl WorldA {
                 if keep && !batch.is_empty() {
                     obs.count_by("fault.dup", batch.len() as u64);
                 }
-                match op.c % 3 {
+                match op.c % 5 {
                     0 => {}
                     1 => {
                         batch.reverse();
